@@ -10,7 +10,7 @@ pub fn uses_class(uses: &str) -> String {
         "acts.core.parallel" => "parallel".to_string(),
         "acts.core.sequence" => "sequence".to_string(),
         "acts.core.block" => "block".to_string(),
-        "acts.core.subflow" => "subflow".to_string(),
+        "acts.core.subflow" => "sub".to_string(),
         "acts.core.action" => "action".to_string(),
         "acts.transform.set" => "set".to_string(),
         "acts.transform.code" => "code".to_string(),
